@@ -511,7 +511,7 @@ def c16i(ctx):
     all slots were seen), and a slot is refused exactly when the layer does not have that dimension and the value is not 'default'.
     (Values of dimensions the layer has are checked by TileLayer.checked_dimensions, C09.e.)"""
     fn = ctx.fn('mapproxy/service/wmts.py:WMTSRestServer.check_request_dimensions')
-    loops = [s for s in fn.walk() if isinstance(s, ast.For) and contains(s.iter, lambda x: isinstance(x, ast.Attribute) and x.attr == 'dimensions')]
+    loops = [s for s in fn.walk() if isinstance(s, ast.For) and contains(cexpr(s.iter), lambda x: isinstance(x, ast.Attribute) and x.attr == 'dimensions')]
     if len(loops) != 1:
         raise Undecided('check_request_dimensions: loop over request.dimensions not found')
     lp = loops[0]
